@@ -63,7 +63,18 @@ def objective_values(case, **kw):
         ok = p.optimize()
     except Exception as e:
         return None, "%s: %s" % (type(e).__name__, str(e)[:160]), None
+    objective_values.traj = traj_of(snaps)
     return [float(s["objective_value"]) for s in snaps], ok, (p, snaps)
+
+
+def traj_of(snaps):
+    """the goal-function trajectories (y, z of every member) of every priority's solution"""
+    return [[float(x) for r in s["results"] for nm in ("y", "z") for x in r[nm]] for s in snaps]
+
+
+def same_solutions(a, b, tol=1e-4):
+    return a is not None and b is not None and len(a) == len(b) and all(
+        len(x) == len(y) and all(abs(u - v) <= tol * (1 + abs(v)) for u, v in zip(x, y)) for x, y in zip(a, b))
 
 
 def gen_pair_case(rng):
@@ -233,38 +244,45 @@ def run(ctx):
             try:
                 if kind == "single_vs_keep_soft":
                     ref, ok, _ = objective_values(dict(c, variant="multi_keep_soft"))
+                    tref = objective_values.traj if ref is not None else None
                     for v in ("single_append", "single_update"):
                         o, ok2, _ = objective_values(dict(c, variant=v))
-                        pairs.append((v, ref, o, ok, ok2))
+                        pairs.append((v, ref, o, ok, ok2, tref, objective_values.traj if o is not None else None))
                 elif kind == "caching_qp":
                     cq = dict(qp_case(c), variant="single_append")
                     for plug, opts in (("qpoases", {"printLevel": "none"}), ("osqp", {"osqp": {"verbose": False, "eps_abs": 1e-9, "eps_rel": 1e-9, "max_iter": 20000}})):
-                        k1, r1 = in_child(lambda: objective_values(cq, qp=(plug, ca.qpsol, opts))[:2])
-                        k2, r2 = in_child(lambda: objective_values(cq, qp=(plug, CachingQPSol(), opts))[:2])
+                        def both(front):
+                            r = objective_values(cq, qp=(plug, front, opts))
+                            return r[0], r[1], (objective_values.traj if r[0] is not None else None)
+                        k1, r1 = in_child(lambda: both(ca.qpsol))
+                        k2, r2 = in_child(lambda: both(CachingQPSol()))
                         if k1 != "ok" or k2 != "ok":
                             ctx.count("qp_child_" + k1 + "_" + k2)
                             continue
-                        pairs.append(("caching/" + plug, r1[0], r2[0], r1[1], r2[1]))
+                        pairs.append(("caching/" + plug, r1[0], r2[0], r1[1], r2[1], r1[2], r2[2]))
                 elif kind == "twice":
                     ref, ok, ps = objective_values(dict(c))
                     if ps is not None and ok:
                         p, snaps = ps
                         n0 = len(snaps)
+                        tref = traj_of(snaps[:n0])
                         ok2 = p.optimize()
                         o = [float(s["objective_value"]) for s in snaps[n0:]]
-                        pairs.append(("second-run", ref, o, ok, ok2))
+                        pairs.append(("second-run", ref, o, ok, ok2, tref, traj_of(snaps[n0:])))
                 elif kind == "expand":
                     ref, ok, _ = objective_values(dict(c), expand=False)
+                    tref = objective_values.traj if ref is not None else None
                     o, ok2, _ = objective_values(dict(c), expand=True)
-                    pairs.append(("expand", ref, o, ok, ok2))
+                    pairs.append(("expand", ref, o, ok, ok2, tref, objective_values.traj if o is not None else None))
                 elif kind == "map_mode":
                     ref, ok, _ = objective_values(dict(c), map_mode="unroll")
+                    tref = objective_values.traj if ref is not None else None
                     o, ok2, _ = objective_values(dict(c), map_mode="serial")
-                    pairs.append(("map-serial", ref, o, ok, ok2))
+                    pairs.append(("map-serial", ref, o, ok, ok2, tref, objective_values.traj if o is not None else None))
             except Exception as e:
                 ctx.count("pair_exception_" + type(e).__name__)
                 continue
-            for name, ref, o, ok, ok2 in pairs:
+            for name, ref, o, ok, ok2, tref, to in pairs:
                 ctx.runtime_samples += 1
                 ctx.count("pair_" + name)
                 nprio = len({int(Fraction(str(g["prio"]))) for g in c["goals"]})
@@ -277,7 +295,14 @@ def run(ctx):
                         ctx.violation("pair/" + name.split("/")[0] + "-unsolved", {"case": c, "pair": name, "reference": ref, "other": o},
                                       what="equivalent formulations disagree (%s): one solves every priority (%s), the other stops (%s)" % (name, ref, o))
                     continue
-                if not close_lists(ref, o):
+                j = next((i for i, (x, y) in enumerate(zip(ref, o)) if abs(x - y) > 1e-4 * (1 + abs(x))), None) if len(ref) == len(o) else None
+                if j is not None and tref and to and len(tref) > j and len(to) > j and same_solutions([tref[j]], [to[j]]):
+                    # the same trajectories (to 1e-4) with optimal values further apart: a later objective that is
+                    # steep where an earlier, flat (quadratic) one is held only to the solver's tolerance - a
+                    # solver-regime effect, not two different problems (DESIGN.md section 2)
+                    ctx.count("pair_same_solution_other_value")
+                    ctx.extra.setdefault("runtime_anomalies", []).append({"pair": name, "objective_values": [ref, o]})
+                elif not close_lists(ref, o):
                     ctx.violation("pair/" + name.split("/")[0], {"case": c, "pair": name, "reference": ref, "other": o},
                                   what="equivalent formulations disagree (%s): %s vs %s" % (name, ref, o))
                 elif len(ctx.samples) < 3:
